@@ -534,6 +534,10 @@ def misc_cases(rng):
     yield 'toDict-value', '$c.toDict($ mod 3, $ * 2)', v, lambda: {x % 3: x * 2 for x in lst}, False
     yield 'member-projection', '$c.select({a => $, b => [{a => $ + 1}]}).a', v, lambda: list(lst), False
     yield 'member-projection-nested', '$c.select({b => [{a => $ + 1}, {a => 0}]}).b.a', v, lambda: [[x + 1, 0] for x in lst], False
+    # booleans are not numbers: a collection of booleans has no maximum or minimum, just as true > false has no meaning
+    for btext in ('[true, false].max()', '[true, false].min()', '[false, true, false].max(false)', '[true].min(true)',
+                  '[true, true].max()', 'max(true, false)', 'min(false, true)', '[1, true].max()', '[false, 0].min()'):
+        yield 'bool-extremum', btext, v, _raise_model('booleans are not ordered'), False
     # host-owned python sets in context variables (never converted): toSet() makes yaql sets of them
     sv = {'s': {1, k + 20}, 't': {k + 20, 3}, 'c': tuple(lst)}
     yield 'raw-set-toSet-union', '$s.toSet() + $t.toSet()', sv, lambda: {1, k + 20, 3}, True
@@ -609,6 +613,7 @@ def deep_same(x, y, unordered=False):
 class Mon:
     def __init__(self, rec):
         self.rec = rec
+        self.limited = {}
         self.eng = yq.engine({'yaql.limitIterators': 10000, 'yaql.memoryQuota': 50000000})
         self.ctx = yaql.create_context()
         # a host function whose failure is a StopIteration (a bare next() on an exhausted iterator): a failure of the
@@ -792,10 +797,46 @@ def _dicts(spec, mon, rec, rng):
                         for k, v in vars_.items()}
                 desc = repr(vars_)
                 rec.case((text, desc), nontrivial=True)
-                mon.compare(name, text, real, thunk, unordered, desc,
-                            replay={'kind': 'dict', 'name': name, 'shard': spec['name'], 'index': i})
+                ok, got, want = mon.compare(name, text, real, thunk, unordered, desc,
+                                            replay={'kind': 'dict', 'name': name, 'shard': spec['name'], 'index': i})
+                if name in TIGHT_LIMIT_NAMES and got[0] == 'value':
+                    # the iterator limit bounds collections, it does not refuse results and operands that fit: the same
+                    # evaluation under a limit equal to the largest collection involved gives the same result
+                    n_ = max([_max_len(x) for x in vars_.values()] + [_max_len(got[1]), 1, text.count(',') + 1])     # (literals in the text too)
+                    eng = mon.limited.get(n_)
+                    if eng is None:
+                        eng = mon.limited[n_] = yq.engine({'yaql.limitIterators': n_})
+                    ctx = mon.ctx.create_child_context()
+                    for k_, v_ in real.items():
+                        ctx[k_] = v_
+                    try:
+                        lim = ('value', eng(text).evaluate(context=ctx))
+                    except Exception as e:
+                        lim = ('error', type(e).__name__)
+                    rec.count('cases')
+                    rec.count('fn.' + name + '@tight-limit')
+                    rec.count('world.tight-limit')
+                    if not (lim[0] == 'value' and deep_same(lim[1], got[1], unordered)):
+                        rec.violation('result-depends-on-context-flavour:tight-iterator-limit:%s' % name,
+                                      '%s with %s gives %r, but %r on an engine with limitIterators=%d (the largest collection involved '
+                                      'has %d elements)' % (text, desc, got, lim, n_, n_), {'kind': 'none'})
     legacy_projection(mon, rec, rng, spec['count'] * 4)
     rec.sample({'function': name, 'text': text, 'vars': desc})
+
+
+TIGHT_LIMIT_NAMES = {'dict.plus', 'dict.set', 'dict.set-dict', 'dict.set-rules', 'dict.delete', 'dict.deleteAll', 'dict.mergeWith',
+                     'dict.ctor', 'dict.produced-plus-literal', 'dict.produced-set', 'dict.literal-plus-produced', 'dict.items',
+                     'dict.keys-plus-keys-list', 'dict.mergeWith-duplicates-in-lists', 'dict.deleted-plus-literal'}
+
+
+def _max_len(x, depth=0):
+    if depth > 8 or isinstance(x, (str, bytes)):
+        return 0
+    if isinstance(x, dict) or hasattr(x, 'items') and hasattr(x, 'keys'):
+        return max([len(x)] + [_max_len(k, depth + 1) for k in x.keys()] + [_max_len(v, depth + 1) for v in x.values()])
+    if isinstance(x, (list, tuple, set, frozenset)):
+        return max([len(x)] + [_max_len(y, depth + 1) for y in x])
+    return 0
 
 
 def legacy_projection(mon, rec, rng, count):
